@@ -97,7 +97,7 @@ func c06CheckDamaged(dir string, orig *Sidecar, data []byte, what string) (strin
 func TestVerifC06Parser(t *testing.T) {
 	rec := verifkit.NewRecorder("C06", "parser")
 	defer rec.Flush()
-	dir := t.TempDir()
+	dir := verifkit.ScratchDir(t, "scratch")
 	sh, nsh := verifkit.Shard()
 	// (i) every single-bit flip and every truncation of generated valid sidecars
 	fixed := []c06Side{
